@@ -317,6 +317,10 @@ class EditDistance(SequenceEdit):
 
         """
         base_bounds: Range = super().bounds()
+        if not self.from_seq and not self.to_seq and base_bounds.lower_bound == 0:
+            # Both sequences were entirely trimmed as a shared prefix and suffix, so they are equal:
+            # every edit is a zero-cost match and there is no matrix that tighten_bounds() could complete.
+            return Range(0, 0)
         if self.is_complete():
             if self.__edits is None:
                 # We need to construct the edits to finalize the cost matrix:
